@@ -1650,7 +1650,7 @@ func (self *Fork) expandForkFromObj(
 	ref fmt.GoStringer,
 	result []ForkId) ([]ForkId, error) {
 	if obj == nil {
-		if len(self.node.forks)-1 > self.index {
+		if len(self.node.forks) > 1 {
 			pc := *part
 			part = &pc
 			self.forkId[i] = part
@@ -1676,7 +1676,7 @@ func (self *Fork) expandForkFromObj(
 			}
 		}
 		if n == 0 {
-			if len(self.node.forks)-1 > self.index {
+			if len(self.node.forks) > 1 {
 				pc := *part
 				part = &pc
 				self.forkId[i] = part
@@ -1686,7 +1686,7 @@ func (self *Fork) expandForkFromObj(
 			self.writeDisable()
 			return nil, nil
 		} else if n == 1 {
-			if len(self.node.forks)-1 > self.index {
+			if len(self.node.forks) > 1 {
 				pc := *part
 				part = &pc
 				self.forkId[i] = part
@@ -1744,7 +1744,7 @@ func (self *Fork) expandForkFromObj(
 			}
 		}
 		if len(keys) == 0 {
-			if len(self.node.forks)-1 > self.index {
+			if len(self.node.forks) > 1 {
 				pc := *part
 				part = &pc
 				self.forkId[i] = part
@@ -1755,7 +1755,7 @@ func (self *Fork) expandForkFromObj(
 			return nil, nil
 		}
 		if len(keys) == 1 {
-			if len(self.node.forks)-1 > self.index {
+			if len(self.node.forks) > 1 {
 				pc := *part
 				part = &pc
 				self.forkId[i] = part
